@@ -12,7 +12,7 @@ use serde_json::json;
 pub const N_KINDS: [Kind; 9] = [Kind::Sma, Kind::Wma, Kind::Sd, Kind::Mad, Kind::Min, Kind::Max, Kind::Fast, Kind::Bb, Kind::Cci];
 pub const N1_KINDS: [Kind; 3] = [Kind::Roc, Kind::Er, Kind::Mfi];
 
-pub const RULE: &str = "For SMA/WMA/SD/MAD/MIN/MAX/FAST/BB/CCI (suffix length n) and ROC/ER/MFI (n+1): instance A is fed prefix+suffix, a fresh instance S only the suffix, then both a common extension of 2n+2 further inputs; outputs compared at the end of the suffix and after every extension step (so every common-suffix length n..3n+2 is covered). Prefixes: none-like short ones, random walks, RAND families, and prefixes with spikes 10^6 times larger than the suffix; suffix drawn from a different distribution than the prefix; periods 1..=512 sampled plus 1..=8 systematically; scalar and bar feeds. Oracle: MIN, MAX, FAST exactly equal; others within tau(t)*M_hist (M_hist over A's whole history; squares for SD and the Bollinger half-width; x condition number c<=1e6 for CCI and MFI, from the double-double reference run on A's history). Non-trivial: prefix non-empty and different from the suffix; distinct by hash of (indicator, params, prefix head, suffix head).";
+pub const RULE: &str = "(for the window-only MIN/MAX/FAST/ROC/ER a third of the prefixes also carry NaN, +-inf, f64::MAX or +-1e308 ticks near their end) For SMA/WMA/SD/MAD/MIN/MAX/FAST/BB/CCI (suffix length n) and ROC/ER/MFI (n+1): instance A is fed prefix+suffix, a fresh instance S only the suffix, then both a common extension of 2n+2 further inputs; outputs compared at the end of the suffix and after every extension step (so every common-suffix length n..3n+2 is covered). Prefixes: none-like short ones, random walks, RAND families, and prefixes with spikes 10^6 times larger than the suffix; suffix drawn from a different distribution than the prefix; periods 1..=512 sampled plus 1..=8 systematically; scalar and bar feeds. Oracle: MIN, MAX, FAST exactly equal; others within tau(t)*M_hist (M_hist over A's whole history; squares for SD and the Bollinger half-width; x condition number c<=1e6 for CCI and MFI, from the double-double reference run on A's history). Non-trivial: prefix non-empty and different from the suffix; distinct by hash of (indicator, params, prefix head, suffix head).";
 
 fn suffix_len(kind: Kind, n: usize) -> usize {
     if N1_KINDS.contains(&kind) {
@@ -154,6 +154,11 @@ pub fn run(ctx: &Ctx) -> Report {
         if *kind == Kind::Bb {
             p.k = *rng.pick(&[0.0, 0.5, 2.0, 3.0]);
         }
+        if *n0 == 0 && rng.below(6) == 0 {
+            p = kind.default_params(); // built through Default::default()
+            rep.count("default_configuration");
+        }
+        let n = p.p[0];
         let sl = suffix_len(*kind, n);
         let ext = 2 * n + 2;
         let level = *rng.pick(&[1e-2, 1.0, 37.5, 1e4]);
@@ -206,6 +211,47 @@ pub fn run(ctx: &Ctx) -> Report {
         } else {
             (prefix, suffix_ext)
         };
+        // The window-only indicators (nothing but the ring: MIN, MAX, FAST, ROC, ER) must also forget ticks
+        // that are not numbers at all: NaN, +-inf, f64::MAX and swings too large to represent, placed near the
+        // end of the prefix so that they are still inside the window when the common suffix starts.
+        let mut prefix = prefix;
+        if r % 3 == 1 && matches!(kind, Kind::Min | Kind::Max | Kind::Fast | Kind::Roc | Kind::Er) && !prefix.is_empty() {
+            let poison = [f64::INFINITY, f64::NAN, f64::NEG_INFINITY, 1e308, -1e308, f64::MAX];
+            // the value the indicator's own ring is filled with is the interesting one: +inf for MIN, -inf for MAX
+            let own_fill = match kind {
+                Kind::Min => Some(f64::INFINITY),
+                Kind::Max => Some(f64::NEG_INFINITY),
+                Kind::Fast => Some(if r % 2 == 0 { f64::INFINITY } else { f64::NEG_INFINITY }),
+                _ => None,
+            };
+            for j in 0..(1 + rng.below(3)) {
+                let v = match own_fill {
+                    Some(f) if j == 0 && r % 4 != 3 => f,
+                    _ => poison[(*idx as usize + j) % poison.len()],
+                };
+                let back = 1 + rng.below((2 * n + 1).min(prefix.len()));
+                let pos = prefix.len() - back;
+                prefix[pos] = match prefix[pos] {
+                    In::S(_) => In::S(v),
+                    In::B(b) => In::B(crate::inst::Bar { o: v, h: v, l: v, c: v, v: b.v }),
+                };
+            }
+            rep.count("pairs.prefix_with_nonfinite_or_overflowing_ticks");
+        }
+        // ... and half of those are followed by a monotone suffix, so that the extremes of the window are its
+        // oldest members and every eviction forces a rescan
+        let mut suffix_ext = suffix_ext;
+        if r % 6 == 1 && matches!(kind, Kind::Min | Kind::Max | Kind::Fast) {
+            let up = matches!(kind, Kind::Min) || (*kind == Kind::Fast && r % 4 == 1);
+            for (k, x) in suffix_ext.iter_mut().enumerate() {
+                let v = level * (1.0 + 0.01 * if up { k as f64 } else { -(k as f64) / (k as f64 + 50.0) * 50.0 });
+                *x = match *x {
+                    In::S(_) => In::S(v),
+                    In::B(b) => In::B(crate::inst::Bar { o: v, h: v * 1.001, l: v * 0.999, c: v, v: b.v }),
+                };
+            }
+            rep.count("pairs.monotone_suffix_after_poisoned_prefix");
+        }
         let tag = if r % 3 == 2 || (!bars && r % 4 == 2) { "after_spikes" } else { "plain" };
         check_forget(rep, &p, &prefix, &suffix_ext, tag);
         rep.count("pairs");
@@ -223,7 +269,7 @@ pub fn run(ctx: &Ctx) -> Report {
         }
     });
     if ctx.only.is_none() {
-        for key in ["compared.at_end_of_suffix", "compared.in_extension", "pairs.prefix_with_1e6_spikes", "pairs.period_ge_100"] {
+        for key in ["compared.at_end_of_suffix", "compared.in_extension", "pairs.prefix_with_1e6_spikes", "pairs.prefix_with_nonfinite_or_overflowing_ticks", "pairs.period_ge_100"] {
             if rep.counters.get(key).copied().unwrap_or(0) == 0 {
                 rep.inconclusive.push(format!("coverage floor missed: {} = 0", key));
             }
